@@ -133,7 +133,7 @@ def run_case(args, known):
     """the eigenvector sign gauge (g_up, g_dn) in {+1,-1}^2 is a finite domain: one exploration per value (keeps every query's
     degree minimal); everything else is symbolic"""
     out = None
-    for g in itertools.product((1, -1), repeat=2):
+    for g in ([tuple(args["gauge"])] if args.get("gauge") else itertools.product((1, -1), repeat=2)):
         r = run_gauge(args, known, g)
         if out is None:
             out = r
@@ -147,7 +147,7 @@ def run_case(args, known):
 def run_gauge(args, known, gauge):
     from ad_afqmc import wavefunctions as wf
     n, nw = args["norb"], args.get("n_walkers", 2)
-    name = f"init-walkers:uhf:restricted:({n};1,1):nw={nw}"
+    name = f"init-walkers:uhf:restricted:({n};1,1):nw={nw}:gauge={gauge[0]:+d}{gauge[1]:+d}"
     res = {"case": name, "obligations": [], "violations": [], "inconclusive": [], "errors": [], "known": [], "samples": [],
            "functions": ["ad_afqmc.wavefunctions.wave_function.get_init_walkers", "ad_afqmc.wavefunctions.wave_function.get_rdm1"], "paths": 0}
     tu = [f"cu{i}" for i in range(n)]
@@ -202,13 +202,21 @@ def run_gauge(args, known, gauge):
         bad = bool(np.any(np.abs(ov) <= float(THR))) or bool(np.abs(Wn[0].conj().T @ Wn[0] - 1).max() > 1e-8) or bool(np.abs(Wn - Wn[0]).max() > 0)
         return bad, f"get_init_walkers(restricted=True) returned walkers with |<psi_T|walker>| = {np.abs(ov).tolist()} (threshold {float(THR)}), c_up={cu.tolist()}, c_dn={cd.tolist()}"
 
-    def check(label, asserts, vars_):
+    def check(label, asserts, vars_, weak=None):
+        """weak: the same negated goal under FEWER assumptions (path condition only); unsat there implies unsat of the full query"""
         label = label + ":" + gtag
         t0 = time.time()
-        s = z3.Solver()
-        s.set("timeout", 30000)
-        s.add(*asserts)
-        r = str(s.check())
+        r = "unknown"
+        if weak is not None:
+            s = z3.Solver()
+            s.set("timeout", 10000)
+            s.add(*weak)
+            r = str(s.check())
+        if r != "unsat":
+            s = z3.Solver()
+            s.set("timeout", 30000)
+            s.add(*asserts)
+            r = str(s.check())
         ob = {"label": label, "status": r, "seconds": round(time.time() - t0, 3), "how": "NRA"}
         if len(res["samples"]) < 2:
             txt = s.to_smt2()
@@ -256,7 +264,8 @@ def run_gauge(args, known, gauge):
             v = V[:, n - 1]
             bad = [zr(sum((M[i, j] * v[j] for j in range(1, n)), M[i, 0] * v[0])) != zr(v[i]) for i in range(n)]
             bad.append(zr(sum((v[i] * v[i] for i in range(1, n)), v[0] * v[0])) != 1)
-            check(f"eigh_contract_instance[{s}]/path{k}", base + [z3.Or(*bad)], vars_)
+            # needs only |c| = 1 (fewer assumptions than the path: sound, and keeps the QR facts out of the query)
+            check(f"eigh_contract_instance[{s}]/path{k}", pre + [z3.Or(*bad)], vars_)
         if kind == "refused":
             refused += 1
             continue
@@ -267,7 +276,7 @@ def run_gauge(args, known, gauge):
         du = zr(sum((cu[i] * w0[i] for i in range(1, n)), cu[0] * w0[0]))
         dd = zr(sum((cd[i] * w0[i] for i in range(1, n)), cd[0] * w0[0]))
         ov = du * dd
-        check(f"overlap_above_threshold/path{k}", base + [z3.And(ov <= thr, -ov <= thr)], vars_)
+        check(f"overlap_above_threshold/path{k}", base + [z3.And(ov <= thr, -ov <= thr)], vars_, weak=pc + [z3.And(ov <= thr, -ov <= thr)])
         check(f"orthonormal/path{k}", base + [zr(sum((w0[i] * w0[i] for i in range(1, n)), w0[0] * w0[0])) != 1], vars_)
         same = [zr(W[a][i, 0]) != zr(w0[i]) for a in range(1, nw) for i in range(n)]
         check(f"identical_copies/path{k}", base + [z3.Or(*same)] if same else base + [z3.BoolVal(False)], vars_)
